@@ -1365,7 +1365,7 @@ class Element(Mapping[str, Attribute]):
                 [ind] = binformat.struct_read(stringdb_ind, file)
                 el_type = stringdb[ind]
             else:
-                el_type = binformat.read_nullstr(file)
+                el_type = binformat.read_nullstr(file, encoding=encoding)
             if version >= 4:
                 assert stringdb is not None
                 [ind] = binformat.struct_read(stringdb_ind, file)
@@ -1425,8 +1425,8 @@ class Element(Mapping[str, Attribute]):
 
                 elif attr_type is ValueType.STRING:
                     if array_size is not None:
-                        # Arrays are always raw ASCII in the file.
-                        attr = Attribute.string(name, binformat.read_nullstr_array(file, array_size))
+                        # Arrays are always stored inline, never in the string database.
+                        attr = Attribute.string(name, binformat.read_nullstr_array(file, array_size, encoding))
                     else:  # Single string.
                         if version >= 4:
                             assert stringdb is not None
